@@ -144,6 +144,9 @@ class TCPTransport(KNXIPTransport):
 
     async def connect(self) -> None:
         """Connect TCP socket."""
+        # a new connection is a new stream - the rest of a frame the previous
+        # connection was lost in the middle of does not belong to it
+        self._buffer = b""
         tcp_transport_factory = TCPTransport.TCPTransportFactory(
             data_received_callback=self.data_received_callback,
             connection_lost_callback=self._connection_lost,
